@@ -38,38 +38,57 @@ RULE = ('modules with 1..4 functions/methods whose docstrings come from the C01 
 ASSUMPTIONS = ['global_exec is None (default)', 'validity of the emitted Python is observed with ast.parse/compile, not proved']
 
 
-def module_text(progs, rng=None):
-    """a module with one function (or method) per program; returns (text, callnames)"""
+def default_layout(n):
+    ents = []
+    for i in range(n):
+        if i % 3 == 2:
+            ents.append({'kind': 'method', 'cls': 'K%d' % i, 'name': 'meth%d' % i, 'progs': [i]})
+        else:
+            ents.append({'kind': 'func', 'name': 'f%d' % i, 'progs': [i]})
+    return {'style': 'freeform', 'entries': ents}
+
+
+def module_text(progs, layout=None):
+    """a module with one function (or method) per entry of the layout, whose docstring holds the entry's programs (one
+    per `Example:` block when there are several); returns (text, callname of every doctest in order)"""
+    layout = layout or default_layout(len(progs))
     out = ['import os', '', 'def deco(f):', '    return f', '']
     names = []
-    for i, prog in enumerate(progs):
-        doc, line_of, sf = prog.render()
-        body = ''.join(('        ' + l if l.strip() else '') + '\n' for l in doc.split('\n')[:-1])
-        if i % 3 == 2:
-            out += ['class K%d(object):' % i, '    def meth%d(self):' % i, "        r'''", body.rstrip('\n'), "        '''", '        return 1', '']
-            names.append('K%d.meth%d' % (i, i))
+    for ent in layout['entries']:
+        docs = []
+        for pi in ent['progs']:
+            doc, line_of, sf = progs[pi].render()
+            docs.append(doc)
+        doc = '\n'.join(docs)          # a blank line between two blocks
+        pad = '        ' if ent['kind'] == 'func' else '            '
+        body = ''.join((pad + l if l.strip() else '') + '\n' for l in doc.split('\n')[:-1])
+        if ent['kind'] == 'method':
+            out += ['class %s(object):' % ent['cls'], '    def %s(self):' % ent['name'], "        r'''", body.rstrip('\n'),
+                    "        '''", '        return 1', '']
+            callname = '%s.%s' % (ent['cls'], ent['name'])
         else:
-            out += ['def f%d(a=1):' % i, "    r'''", body.rstrip('\n'), "    '''", '    return a', '']
-            names.append('f%d' % i)
+            out += ['def %s(a=1):' % ent['name'], "    r'''", body.rstrip('\n'), "    '''", '    return a', '']
+            callname = ent['name']
+        names.extend([callname] * len(ent['progs']))
     return '\n'.join(out) + '\n', names
 
 
-def real_dump(path):
+def real_dump(path, style='freeform'):
     from xdoctest import runner
     buf = io.StringIO()
     with warnings.catch_warnings():
         warnings.simplefilter('ignore')
         with contextlib.redirect_stdout(buf):
-            runner.doctest_module(path, 'dump', style='freeform', verbose=0)
+            runner.doctest_module(path, 'dump', style=style, verbose=0)
     t = buf.getvalue()
     return t[:-1] if t.endswith('\n') else t
 
 
-def real_examples(path):
+def real_examples(path, style='freeform'):
     from xdoctest import core
     with warnings.catch_warnings():
         warnings.simplefilter('ignore')
-        exs = list(core.parse_doctestables(path, style='freeform', analysis='static'))
+        exs = list(core.parse_doctestables(path, style=style, analysis='static'))
     out = []
     for ex in exs:
         ex._parse()
@@ -190,21 +209,62 @@ def problems(progs, names, modname, text):
     return out
 
 
+def star_program(rng):
+    """two or three star-imports inside ONE part, at the start / in the middle / adjacent / at the end"""
+    n = rng.randint(3, 6)
+    pos = set(rng.sample(range(n), rng.choice([2, 2, 3])))
+    stmts = [P.Stmt('starimport' if k in pos else rng.choice(['assign', 'print', 'expr', 'multi']), k, rng.choice(['new', 'old']))
+             for k in range(n)]
+    prog = P.Program(stmts, rng.choice(['', '    ']))
+    P.place_wants(prog, rng, prob=0.15, layout=False)
+    return prog
+
+
 def gen_module(rng, quick):
+    """returns (programs, layout)"""
+    r = rng.random()
+    mk = lambda: P.gen_program(rng, max_len=5 if quick else 8, allow_star=True, allow_await=(rng.random() < 0.3))
+    if r < 0.2:
+        # several doctests per callable: google style, one doctest per `Example:` block
+        progs = []
+        ents = []
+        for i in range(rng.randint(1, 2)):
+            idxs = []
+            for _ in range(rng.randint(2, 3)):
+                p = P.gen_program(rng, max_len=3, allow_await=False, allow_star=True, wants=False)
+                p.indent, p.header = '    ', ['Example:']
+                P.place_wants(p, rng, layout=False)
+                for st in p.stmts:
+                    if st.sep == 'prose':
+                        st.sep = 'blank'
+                idxs.append(len(progs))
+                progs.append(p)
+            ents.append({'kind': 'func', 'name': 'g%d' % i, 'progs': idxs})
+        return progs, {'style': 'google', 'entries': ents}
     n = rng.randint(1, 4)
-    progs = [P.gen_program(rng, max_len=5 if quick else 8, allow_star=True, allow_await=(rng.random() < 0.3)) for _ in range(n)]
-    return progs
+    progs = [star_program(rng) if rng.random() < 0.25 else mk() for _ in range(n)]
+    layout = default_layout(n)
+    if r < 0.4 and n >= 2:
+        # two callables whose dumped function names collide: method K.run next to function K_run
+        layout['entries'][0] = {'kind': 'method', 'cls': 'Gamma', 'name': 'run', 'progs': [0]}
+        layout['entries'][n - 1] = {'kind': 'func', 'name': 'Gamma_run', 'progs': [n - 1]}
+    return progs, layout
 
 
-def check_module(progs, tmp, idx):
+def check_module(progs, tmp, idx, layout=None):
     """returns (model text, real text, problems, module text, modname)"""
-    text, names = module_text(progs)
+    layout = layout or default_layout(len(progs))
+    style = layout['style']
+    text, names = module_text(progs, layout)
     modname = 'dumpmod_%d' % idx
     path = os.path.join(tmp, modname + '.py')
     with open(path, 'w') as f:
         f.write(text)
-    real = real_dump(path)
-    exs = real_examples(path)
+    try:
+        real = real_dump(path, style)
+    except Exception as ex:
+        return '', '', [('crash', 'the dump command raised %s: %s' % (type(ex).__name__, ex))], text, modname
+    exs = real_examples(path, style)
     m0 = dec(driver.run_lines([model_line(exs, [[] for _ in exs])], jobs=1)[0])
     und = []
     for defline, body in function_bodies(m0):
@@ -214,7 +274,6 @@ def check_module(progs, tmp, idx):
             und.append([])
     und = (und + [[] for _ in exs])[:len(exs)]
     model = dec(driver.run_lines([model_line(exs, und)], jobs=1)[0]) if exs else ''
-    # node contains the scratch path: canonicalise for the record only
     return model, real, problems(progs, names, modname, real), text, modname
 
 
@@ -225,12 +284,12 @@ def _shard(args):
     tmp = tempfile.mkdtemp(prefix='xdocverif-')
     try:
         for i in range(count):
-            progs = gen_module(rng, quick)
-            model, real, probs, text, modname = check_module(progs, tmp, shard * 100000 + i)
+            progs, layout = gen_module(rng, quick)
+            model, real, probs, text, modname = check_module(progs, tmp, shard * 100000 + i, layout)
             out['n'] += 1
             if len(progs) > 1:
                 out['nontrivial'].add(hash(text))
-            inp = {'module': text, 'programs': [p.describe() for p in progs]}
+            inp = {'module': text, 'programs': [p.describe() for p in progs], 'layout': layout}
             if model != real:
                 out['dis'].append((inp, model[:700], real[:700]))
             for cls, msg in probs:
@@ -275,8 +334,10 @@ def _cli(ctx, corr):
     tmp = tempfile.mkdtemp(prefix='xdocverif-')
     try:
         for i in range(3 if ctx.quick else 25):
-            progs = gen_module(rng, True)
-            text, names = module_text(progs)
+            progs, layout = gen_module(rng, True)
+            if layout['style'] != 'freeform':
+                continue
+            text, names = module_text(progs, layout)
             path = os.path.join(tmp, 'climod_%d.py' % i)
             with open(path, 'w') as f:
                 f.write(text)
@@ -311,23 +372,14 @@ def search(ctx, corr, broken):
 
 
 def _rebuild(inp):
-    progs = []
-    for d in inp['programs']:
-        stmts = []
-        for sd in d['stmts']:
-            s = P.Stmt(sd['kind'], sd['k'], sd['style'], sd.get('terminator', False), sd.get('inline'))
-            s.want = sd.get('want')
-            s.sep = sd.get('sep')
-            stmts.append(s)
-        progs.append(P.Program(stmts, d['indent'], d['header']))
-    return progs
+    return [P.Program.from_desc(d) for d in inp['programs']]
 
 
 def _problems_of_input(inp):
     progs = _rebuild(inp)
     tmp = tempfile.mkdtemp(prefix='xdocverif-')
     try:
-        model, real, probs, text, modname = check_module(progs, tmp, 0)
+        model, real, probs, text, modname = check_module(progs, tmp, 0, inp.get('layout'))
     finally:
         shutil.rmtree(tmp, ignore_errors=True)
     return real, probs
